@@ -395,7 +395,9 @@ PROPS["C07"] = dict(
 PROPS["C12"] = dict(
     modules=["common", "hdrs", "c03", "c02", "c05", "c13", "c14", "c16", "c18", "c07", "c12"],
     contracts=["parse_range", "wsgi.FileResponse.__call__", "asgi.FileResponse.__call__", "if_none_match", "if_modified_since",
-               "check_path_is_file", "URL._build_url", "request.cookies", "request.content_length", "request.date"],
+               "check_path_is_file", "URL._build_url", "request.cookies", "request.content_length", "request.date",
+               "wsgi.Request.json", "asgi.Request.json", "wsgi.Request.form", "asgi.Request.form",
+               "wsgi.HTTPConnection.url", "asgi.HTTPConnection.url"],
     refute={"quick": [2], "thorough": [1, 2, 3]},
     native="c12",
     level="other",
@@ -409,15 +411,19 @@ PROPS["C12"] = dict(
                "400/416 responses and let nothing else escape for client-controlled input; if_none_match, if_modified_since, "
                "check_path_is_file (missing entry / path below a file), the cookie parser, content_length and date return a "
                "value for every header value; URL._build_url raises only for an unknown scheme or a non-UTF-8 query "
-               "string. BOUNDED (labelled): grammar-aware mutations and raw Latin-1 noise against every accessor, JSON / "
+               "string; Request.json and Request.form (both interfaces) let only MalformedJSON / MalformedMultipart / "
+               "RequestEntityTooLarge / UnsupportedMediaType / HTTPException(400) escape, each under its media-type condition, "
+               "whatever decode(), json.loads() and the multipart helper raise from their catalogues (UnicodeDecodeError, "
+               "LookupError, JSONDecodeError, plain ValueError for over-long integers, RecursionError); request.url turns "
+               "urlsplit's ValueError and a non-UTF-8 path/query into a 400. BOUNDED (labelled): grammar-aware mutations and raw Latin-1 noise against every accessor, JSON / "
                "form / multipart parsing, routing and the static-file apps on both interfaces, classifying what escapes.",
-    level_note="Trusted: the raise catalogue of the stubs (validated by the bounded layer). Known findings (open): the request URL "
-               "built from a malformed Host header raises ValueError (urlsplit); an urlencoded form body that cannot be decoded "
-               "with the declared charset raises UnicodeDecodeError / LookupError. Functions not under contract (Request.json/"
-               "form, MultipartDecoder, Route.matches, Files/Pages.__call__) are covered by the bounded layer only.",
+    level_note="Trusted: the raise catalogue of the stubs (validated by the bounded layer). Both former findings (request.url with a "
+               "malformed Host; undecodable urlencoded form) are repaired (fix: commits 6cc1798, 232cc6c). Functions not under "
+               "contract (MultipartDecoder, Route.matches, Files/Pages.__call__) are covered by the bounded layer only.",
     technique="deductive verification: exceptional postconditions (allowed-exception sets) discharged per path over the real try/except structure, SMT; bounded grammar-aware fuzzing with known-finding regions",
     explanation="proved: allowed-exception sets of parse_range, FileResponse.__call__ (both), validator predicates, stat wrapper, "
-                "cookie parser, content_length, date, _build_url; bounded: fuzzing of all entry points incl. JSON/form/multipart.",
+                "cookie parser, content_length, date, _build_url, Request.json / Request.form / request.url (both interfaces); bounded: "
+                "fuzzing of all entry points incl. JSON/form/multipart.",
 )
 
 PROPS["C01"] = dict(
